@@ -86,11 +86,7 @@ Theorem C04_bridge_state :
     inv_core_b s = true -> end_of_phase_b s = true ->
     exists s1 s2, revert_optional s = Ok s1 /\ delete_detached s1 = Ok s2 /\
                   inv_core_b s2 = true /\ quiescent_success_b s2 = true.
-Proof.
-  intros s HI Hep. apply GraphInvP.inv_core_b_iff in HI.
-  destruct (bridge_state s HI Hep) as [s1 [s2 [H1 [H2 [_ [HI2 Hq]]]]]].
-  exists s1, s2. repeat split; try assumption. apply GraphInvP.inv_core_b_iff. exact HI2.
-Qed.
+Proof. exact bridge_state_b. Qed.
 
 (* History form (the former Definition C04_bridge, now proved): for every history of transactions
    (Graph.v alphabet + revert_optional_steps) from the empty workflow that ends in a successful
@@ -103,7 +99,7 @@ Proof. exact bridge. Qed.
 (* At the end of a successful phase nothing satisfies the dispatch guard. *)
 Theorem C04_end_of_phase_nothing_dispatchable :
   forall s : st, end_of_phase_b s = true -> forall l, dispatch_guard l s = false.
-Proof. intros s H. apply eop_nothing_dispatchable. apply (eop_parts s H). Qed.
+Proof. exact end_of_phase_nothing_dispatchable. Qed.
 
 (* The first two clauses of C04_full, for histories: after ANY history that ends in a successful
    build, a restart and a watch-mode rebuild with nothing changed are the identity. *)
@@ -118,11 +114,7 @@ Theorem C04_noop_after_successful_history :
        watch_ops q rehash = [] /\ run_ops (watch_ops q rehash) q = q /\
        (forall l, dispatch_guard l q = false) /\
        revert_optional q = Ok q /\ delete_detached q = Ok q).
-Proof.
-  intros cap hist H q. pose proof (bridge cap hist H) as Hq. split; intros rehash Hu.
-  - exact (restart_noop q rehash Hq Hu).
-  - exact (watch_noop q rehash Hq Hu).
-Qed.
+Proof. exact noop_after_successful_history. Qed.
 
 (* ---- tracked environment variables -------------------------------------------------------- *)
 
@@ -157,9 +149,7 @@ Theorem C04_env_store_complete :
     map ev_name (rescan_env_store true vals cur s) = map ev_name vals /\
     (forall l, In l (rescan_env_steps vals cur s) <->
                exists r, In r vals /\ ev_step r = l /\ env_row_changed cur s r = true).
-Proof.
-  intros s vals cur. split; [intros r'; apply env_store_complete | apply env_store_shape].
-Qed.
+Proof. exact env_store_complete_all. Qed.
 
 (* Hence a second start in the same environment finds nothing changed, whatever subset of the
    variables had changed before (A,B -> A',B' -> A,B' included: each start compares with the values
@@ -168,12 +158,7 @@ Theorem C04_env_second_start_quiet :
   forall (s s' : st) (vals : list envval) (cur : str -> option N),
     (forall l, attached (KStep, l) s' = true -> attached (KStep, l) s = true) ->
     rescan_env_steps (rescan_env_store true vals cur s) cur s' = [].
-Proof.
-  intros s s' vals cur Hatt. apply env_unchanged_steps. unfold env_unchanged_b. apply forallb_forall.
-  intros r' Hin. apply negb_true_iff. unfold env_row_changed.
-  destruct (attached (KStep, ev_step r') s') eqn:Ha; [|reflexivity]. cbn [andb]. apply negb_false_iff.
-  rewrite (env_store_complete s vals cur r' Hin (Hatt _ Ha)). apply on_eqb_refl.
-Qed.
+Proof. exact env_second_start_quiet. Qed.
 
 (* ---- the cone ---------------------------------------------------------------------------- *)
 
@@ -262,9 +247,7 @@ Theorem C04_cone_invariant_partial2 :
     (forall k, attached k s = true -> attached k q = true \/ tcone E G h k) /\
     (forall l, In l (dispatched ops) -> tcone E G h (KStep, l)) /\
     (forall l, In l (executed ops q) -> tcone E G h (KStep, l)).
-Proof.
-  intros q E G ops Hq HI. exact (cone_invariant_partial2 q E G Hq (inv_core_no_file_creator q HI) ops).
-Qed.
+Proof. exact cone_invariant_partial2_b. Qed.
 
 (* The executable versions used by the E2 correspondence are sound: tcone_b decides the cone, and a
    rebuild accepted by cone_ops2_b satisfies the hypotheses of C04_cone_invariant_partial2. *)
@@ -287,12 +270,7 @@ Theorem C04_cone_idle_optional_clause_needed :
     dispatch_guard l (run_ops (removelast ops) q) = true /\
     In l (executed ops q) /\
     ~ tcone E [] (rebuild_hist [] q ops) (KStep, l).
-Proof.
-  exists 3, ExO.hist, [ExO.p2_py], ExO.ops, ExO.u.
-  destruct ExO.facts as [H1 [_ [H3 [_ [H5 [H6 [H7 _]]]]]]].
-  split; [exact H1|]. change (run_xops ExO.hist (init_st 3)) with ExO.q.
-  split; [exact H3|]. split; [exact H5|]. split; [exact H6|]. split; [exact H7 | exact ExO.u_outside_cone].
-Qed.
+Proof. exact cone_idle_optional_clause_needed. Qed.
 
 (* The full sentence as written (Definition C04_full, model/Noop.v) is FALSE of the model, and of the
    code: the witness is the history of C04_cone_idle_optional_clause_needed (an unused OPTIONAL step
@@ -406,8 +384,4 @@ Example C04_example_rebuild_with_plan_rerun :
   cone_ops2_b ExR.q [ExR.plan_py] [] ExR.q ExR.ops = true /\
   executed ExR.ops ExR.q = [ExR.plan; ExR.w] /\ dispatched ExR.ops = [ExR.plan; ExR.plan; ExR.t; ExR.w] /\
   attached (KStep, ExR.u) (run_ops ExR.ops ExR.q) = false.
-Proof.
-  destruct ExR.facts as [H1 [H2 [H3 [H4 [_ [_ [H7 _]]]]]]].
-  split; [exact H1|]. split; [exact H2|]. split; [exact ExR.ok|]. split; [exact ExR_checker|].
-  split; [exact H3|]. split; [exact H4 | exact H7].
-Qed.
+Proof. exact ExR_example. Qed.
